@@ -5,7 +5,7 @@ import re
 
 import vlib
 
-PROPS = ['Rangers.Props.C01', 'Rangers.Props.C01B', 'Rangers.Props.C01C', 'Rangers.Props.C01D', 'Rangers.Props.C01E', 'Rangers.Props.C01Sites']
+PROPS = ['Rangers.Props.C01', 'Rangers.Props.C01B', 'Rangers.Props.C01C', 'Rangers.Props.C01D', 'Rangers.Props.C01E', 'Rangers.Props.C01F', 'Rangers.Props.C01Sites']
 DRIVERS = ['C01']
 META = dict(
     level='proof',
